@@ -3,16 +3,27 @@
 (* every palette size; also emits the sequences (with predicted colours) for replay.       *)
 EXTENDS Blame, TLC, Json
 CONSTANTS NK, MaxLen, Palettes, ReplayLen
-VARIABLES ks, P
-vars == <<ks, P>>
-Init == ks = <<>> /\ P \in Palettes
-Next == Len(ks) < MaxLen /\ \E k \in 1..NK : ks' = Append(ks, k) /\ UNCHANGED P
+VARIABLES ks, P, gs
+vars == <<ks, P, gs>>
+Init == ks = <<>> /\ P \in Palettes /\ gs = <<>>
+Next == Len(ks) < MaxLen /\ \E k \in 1..NK : ks' = Append(ks, k) /\ UNCHANGED <<P, gs>>
 Spec == Init /\ [][Next]_vars
 LawsHold == Laws(ks, Colours(NK, P, ks))
 \* colours stay inside the palette
 InPalette == \A i \in DOMAIN ks : Colours(NK, P, ks)[i] \in 1..P
 Replay == Len(ks) = 0 \/ Len(ks) > ReplayLen
           \/ PrintT(<<"REPLAY", ToJson([ks |-> ks, P |-> P, cs |-> Colours(NK, P, ks)])>>)
+\* streams in which git coloured some lines itself: totality and the neighbour laws (separate, smaller bound)
+CONSTANTS GitColoured, BlameFixed
+GInit == ks = <<>> /\ gs = <<>> /\ P \in Palettes
+GNext == Len(ks) < MaxLen /\ \E k \in 1..NK, g \in (IF GitColoured THEN BOOLEAN ELSE {FALSE}) :
+            ks' = Append(ks, k) /\ gs' = Append(gs, g) /\ UNCHANGED P
+GSpec == GInit /\ [][GNext]_<<ks, P, gs>>
+GTotal == TotalG(P, ks, gs, ColoursG(NK, P, ks, gs, BlameFixed))
+GLaws == LawsG(ks, gs, ColoursG(NK, P, ks, gs, BlameFixed))
+GSame == (\A i \in DOMAIN gs : ~gs[i]) => ColoursG(NK, P, ks, gs, BlameFixed) = Colours(NK, P, ks)     \* conservative extension
+GReplay == Len(ks) = 0 \/ Len(ks) > ReplayLen \/ ~(\E i \in DOMAIN gs : gs[i])
+           \/ PrintT(<<"REPLAYG", ToJson([ks |-> ks, gs |-> gs, P |-> P, cs |-> ColoursG(NK, P, ks, gs, BlameFixed)])>>)
 \* regression: a memo that ignores the collision rule must be rejected
 BrokenColours == [i \in DOMAIN ks |-> ((ks[i] - 1) % P) + 1]
 Regression == Laws(ks, BrokenColours)
